@@ -14,9 +14,10 @@ TraceLog == ndJsonDeserialize(TraceFile)
 VARIABLES l,        \* next line to consume
           st,       \* replica id -> table state [kv, idx, lidx]
           pinned,   \* replica id -> table state pinned by the last PrepareSnapshot
-          hist      \* recorded contents of replica 1 during a concurrent section: hist[j+1] = content after j updates
+          hist,     \* recorded contents of replica 1 during a concurrent section: hist[j+1] = content after j updates
+          dlog      \* crash scenarios: the committed log (sequence of [i, c, li]) of the scenario in progress
 
-vars == <<l, st, pinned, hist>>
+vars == <<l, st, pinned, hist, dlog>>
 
 Reps == 1..4
 
@@ -29,6 +30,7 @@ TInit == /\ TLCSet(7, {})
          /\ st = [r \in Reps |-> InitTable]
          /\ pinned = [r \in Reps |-> InitTable]
          /\ hist = <<>>
+         /\ dlog = <<>>
 
 Ev == TraceLog[l]
 IsEvent(name) == l <= Len(TraceLog) /\ Ev.ev = name /\ l' = l + 1
@@ -72,7 +74,7 @@ TUpdate ==
      /\ Ev.lidx = x.st.lidx      \* C03: leader index is a function of the log
      /\ st' = [st EXCEPT ![Ev.rep] = x.st]
      /\ hist' = IF hist # <<>> /\ Ev.rep = 1 THEN Append(hist, x.st.kv) ELSE hist
-  /\ UNCHANGED pinned
+  /\ UNCHANGED <<pinned, dlog>>
 
 (***************************************************************************)
 (* reads                                                                   *)
@@ -84,7 +86,7 @@ LookupOK(kv, op, got) == RangeMatch(RangeRead(kv, op), got)
 TLookup ==
   /\ IsEvent("lookup")
   /\ LookupOK(st[Ev.rep].kv, Ev.op, Ev.r)
-  /\ UNCHANGED <<st, pinned, hist>>
+  /\ UNCHANGED <<st, pinned, hist, dlog>>
 
 \* streamed range read: chunks concatenate to the unbounded answer
 RECURSIVE Concat(_)
@@ -110,7 +112,7 @@ IterOK(kv, op, chunks) ==
 TIter ==
   /\ IsEvent("iter")
   /\ IterOK(st[Ev.rep].kv, Ev.op, Ev.chunks)
-  /\ UNCHANGED <<st, pinned, hist>>
+  /\ UNCHANGED <<st, pinned, hist, dlog>>
 
 \* read-only transaction through Lookup: same answers as the write path would give (C02)
 TRoTxn ==
@@ -118,13 +120,13 @@ TRoTxn ==
   /\ LET x == RoTxn(st[Ev.rep].kv, Ev.c) IN
      /\ Ev.ok = x.ok
      /\ RespsMatchT(x.r, Ev.rs)
-  /\ UNCHANGED <<st, pinned, hist>>
+  /\ UNCHANGED <<st, pinned, hist, dlog>>
 
 TIndex ==
   /\ IsEvent("index")
   /\ Ev.idx = st[Ev.rep].idx
   /\ Ev.lidx = st[Ev.rep].lidx
-  /\ UNCHANGED <<st, pinned, hist>>
+  /\ UNCHANGED <<st, pinned, hist, dlog>>
 
 (***************************************************************************)
 (* clean close + reopen, snapshot transfer (C03, C08 content)              *)
@@ -132,23 +134,47 @@ TIndex ==
 TReopen ==
   /\ IsEvent("reopen")
   /\ Ev.idx = st[Ev.rep].idx
-  /\ UNCHANGED <<st, pinned, hist>>
+  /\ UNCHANGED <<st, pinned, hist, dlog>>
 
 TPrepare ==
   /\ IsEvent("prepare")
   /\ pinned' = [pinned EXCEPT ![Ev.rep] = st[Ev.rep]]
-  /\ UNCHANGED <<st, hist>>
+  /\ UNCHANGED <<st, hist, dlog>>
 
 TRecover ==
   /\ IsEvent("recover")
   /\ st' = [st EXCEPT ![Ev.to] = pinned[Ev.from]]
-  /\ UNCHANGED <<pinned, hist>>
+  /\ UNCHANGED <<pinned, hist, dlog>>
 
 TReset ==
   /\ IsEvent("reset")
   /\ st' = [r \in Reps |-> InitTable]
   /\ pinned' = [r \in Reps |-> InitTable]
   /\ hist' = <<>>
+  /\ dlog' = <<>>
+
+(***************************************************************************)
+(* Crash recovery (C04, C08 interrupted installs).                         *)
+(* "dlog": the committed log of the scenario.  "recovered": after a crash  *)
+(* at file-system operation k (all non-durable state dropped) the table    *)
+(* was reopened: Open must succeed and report an index i such that         *)
+(*   - i is an apply-batch boundary of the scenario (or an installed       *)
+(*     snapshot's index): never part of a batch,                           *)
+(*   - i >= floor, the index covered by the last COMPLETED sync / close /  *)
+(*     snapshot install before the crash, and i <= what had been applied,  *)
+(* and the content is then exactly log entries 1..i (checked by the reads  *)
+(* that follow; the updates that follow re-apply the rest).                *)
+(***************************************************************************)
+TDLog == /\ IsEvent("dlog") /\ dlog' = Ev.log /\ UNCHANGED <<st, pinned, hist>>
+
+Prefix(i) == SelectSeq(dlog, LAMBDA e : e.i <= i)
+TRecovered ==
+  /\ IsEvent("recovered")
+  /\ Ev.err = ""
+  /\ Ev.idx \in {Ev.bounds[j] : j \in 1..Len(Ev.bounds)} \cup {0}
+  /\ Ev.floor <= Ev.idx /\ Ev.idx <= Ev.applied
+  /\ st' = [st EXCEPT ![Ev.rep] = IF Ev.err = "" THEN ApplyEntries(InitTable, Prefix(Ev.idx)) ELSE InitTable]
+  /\ UNCHANGED <<pinned, hist, dlog>>
 
 (***************************************************************************)
 (* Concurrent section (C02 atomic visibility, C09 point-in-time view):     *)
@@ -162,26 +188,35 @@ TReset ==
 TRecStart ==
   /\ IsEvent("rec_start")
   /\ hist' = <<st[1].kv>>
-  /\ UNCHANGED <<st, pinned>>
+  /\ UNCHANGED <<st, pinned, dlog>>
 
 Window == {j \in (Ev.s + 1)..(Ev.e + 1) : j <= Len(hist)}
 
 TRoTxnAt ==
   /\ IsEvent("rotxn_at")
   /\ \E j \in Window : LET x == RoTxn(hist[j], Ev.c) IN Ev.ok = x.ok /\ RespsMatchT(x.r, Ev.rs)
-  /\ UNCHANGED <<st, pinned, hist>>
+  /\ UNCHANGED <<st, pinned, hist, dlog>>
 
 TLookupAt ==
   /\ IsEvent("lookup_at")
   /\ \E j \in Window : LookupOK(hist[j], Ev.op, Ev.r)
-  /\ UNCHANGED <<st, pinned, hist>>
+  /\ UNCHANGED <<st, pinned, hist, dlog>>
 
 TIterAt ==
   /\ IsEvent("iter_at")
   /\ \E j \in Window : IterOK(hist[j], Ev.op, Ev.chunks)
-  /\ UNCHANGED <<st, pinned, hist>>
+  /\ UNCHANGED <<st, pinned, hist, dlog>>
 
-TNext == TRecStart \/ TRoTxnAt \/ TLookupAt \/ TIterAt \/ TUpdate \/ TLookup \/ TIter \/ TRoTxn \/ TIndex \/ TReopen \/ TPrepare \/ TRecover \/ TReset
+\* a lazy range sequence created before a snapshot install and consumed after it: old state, new state or a clean
+\* failure - never a crash of the serving process (C08).
+\* KNOWN FINDING LazyReadAfterInstallPanics: the sequence opens its iterator on the closed old DB: panic "pebble: closed"
+TLazyRead ==
+  /\ IsEvent("lazyread")
+  /\ \/ Ev.outcome \in {"old", "new", "error"}
+     \/ (Ev.outcome = "panic" /\ Dev("LazyReadAfterInstallPanics"))
+  /\ UNCHANGED <<st, pinned, hist, dlog>>
+
+TNext == TLazyRead \/ TDLog \/ TRecovered \/ TRecStart \/ TRoTxnAt \/ TLookupAt \/ TIterAt \/ TUpdate \/ TLookup \/ TIter \/ TRoTxn \/ TIndex \/ TReopen \/ TPrepare \/ TRecover \/ TReset
 
 TSpec == TInit /\ [][TNext]_vars
 
